@@ -25,6 +25,9 @@ package main
 //   - damaged ASTs (one pointer / interface / slice field of the parsed statement or pattern set to nil): the
 //     real matcher either answers or panics with a nil dereference, and the model must predict which.
 //
+// After the generated scenarios the domain runs the CLAUSE family (c05clauses.go): tables of the clauses of every
+// statement kind, pattern and statement differing in exactly one clause, with and without each placeholder kind.
+//
 // Every real (pattern AST, statement AST, result) is exported to tree form by reflection (c05pat_tree.go) and
 // replayed on match_impl (OpMatch / OpMatchRaw); the documented relation instance_of is evaluated by the model on
 // the same pairs and compared with what the generator knows (OpInst).
@@ -758,6 +761,7 @@ type c5pRun struct {
 	batchLabel string
 	batchStmts []string
 	batchVals  [][]byte
+	batchMore  int // the clause family (c05clauses.go) has many small statements per pattern: larger operations
 }
 
 func c5pFlag(b bool) []byte {
@@ -802,7 +806,7 @@ func (e *c5pRun) match(label string, stmt, pat sqlparser.Statement, raw bool, do
 		return res, o.Kind == "panic"
 	}
 	// same pattern as the previous observation: one operation for all of them
-	if e.batchPat != tph || len(e.batchStmts) >= 5 { // small operations: the case files are replayed in parallel
+	if e.batchPat != tph || len(e.batchStmts) >= 5+e.batchMore { // small operations: the case files are replayed in parallel
 		e.flush()
 		e.batchPat, e.batchLabel = tph, label
 	} else {
@@ -881,6 +885,8 @@ func runC05pat(rep *vh.Report, r *vh.Rng, n int, thorough bool) {
 		e.flush()
 	}
 	sqlparser.SetDefaultDialect(mysql.NewMySQLDialect())
+	// the clause tables of every statement kind: pattern and statement differ in exactly one clause (c05clauses.go)
+	e.clauseFamily(thorough)
 }
 
 // fillPh sets the placeholder text of value / column-expression slots
